@@ -515,6 +515,29 @@ func (e *SpecEnv) evalCall(x *ast.CallExpr) Val {
 			ls = append(ls, vc.rvLoad(e.st, n, sBV64, v.L[iObj], cellKey(v)))
 		}
 		return Val{T: t, L: ls}
+	case "govcRvindirect":
+		// reflect.Indirect(v) as the extern models it (a pointer to a message struct is followed)
+		v := e.eval(x.Args[0])
+		vc.ptrMsgAxioms()
+		isPtr := and(eq(v.L[iMt], bvLit(64, rvPlain)), app("bvult", app("RVPtrMsg", v.L[iTTag]), bvLit(64, 0xFF00)))
+		hn := ghostHeapName("plain!rvPtr")
+		hs := arrSort(sBV64, sBV64)
+		vc.ghostSorts[hn] = hs
+		p := sel(vc.heapTerm(e.st, hn, hs), v.L[iObj])
+		mt := app("RVPtrMsg", v.L[iTTag])
+		el := []string{p, ite(eq(p, bvLit(64, 0)), bvLit(64, rvInvalid), mt), allOnes64, allOnes64, bvLit(64, clsStruct), bvLit(64, 0), bvLit(64, 0), bvLit(64, 0), app("RVTag", mt)}
+		out := Val{T: v.T}
+		for k := range v.L {
+			out.L = append(out.L, ite(isPtr, el[k], v.L[k]))
+		}
+		return out
+	case "govcRvmsgarg":
+		// v is the zero Value, a Value viewing a whole message struct, or one wrapping a pointer to a message struct
+		v := e.eval(x.Args[0])
+		vc.ptrMsgAxioms()
+		isPtr := and(eq(v.L[iMt], bvLit(64, rvPlain)), app("bvult", app("RVPtrMsg", v.L[iTTag]), bvLit(64, 0xFF00)))
+		isMsg := and(app("bvult", v.L[iMt], bvLit(64, 0xFF00)), eq(v.L[iFld], allOnes64), eq(v.L[iIdx], allOnes64), eq(v.L[iCls], bvLit(64, clsStruct)), not(eq(v.L[iObj], bvLit(64, 0))))
+		return Val{T: types.Typ[types.Bool], L: []string{or(eq(v.L[iMt], bvLit(64, rvInvalid)), isMsg, isPtr)}}
 	case "govcRvstr":
 		// the string held by the cell that v addresses
 		v := e.eval(x.Args[0])
@@ -1218,4 +1241,19 @@ func rangeEquiv(q, off, n string) string {
 	bounds := and(app("bvsle", bvLit(64, 0), off), app("bvslt", off, bvLit(64, 1<<40)), app("bvsle", bvLit(64, 0), n), app("bvslt", n, bvLit(64, 1<<40)))
 	direct := and(app("bvsle", off, q), app("bvslt", q, app("bvadd", off, n)))
 	return imp(bounds, eq(direct, app("bvult", app("bvsub", q, off), n)))
+}
+
+// ptrMsgAxioms declares RVPtrMsg (message number of a pointer-to-message type
+// tag) with its ground facts from msgsTypes, once per VC.
+func (vc *VC) ptrMsgAxioms() {
+	vc.declareRVFuncs()
+	if vc.declared["RVPtrMsg"] {
+		return
+	}
+	vc.declareFun("RVPtrMsg", []string{sBV64}, sBV64)
+	for _, k := range vc.w.profileMsgNums() {
+		mi := vc.w.profile().Msgs[k]
+		vc.prelude = append(vc.prelude, fmt.Sprintf("(assert (= (RVPtrMsg %s) %s))", bvLit(64, uint64(vc.w.tags.tag(types.NewPointer(mi.Named)))), bvLit(64, uint64(k))))
+		vc.prelude = append(vc.prelude, fmt.Sprintf("(assert (= (RVTag %s) %s))", bvLit(64, uint64(k)), bvLit(64, uint64(vc.w.tags.tag(mi.Named)))))
+	}
 }
